@@ -319,6 +319,20 @@ func c19Scenarios(thorough bool) []*scenario {
 				}
 			}
 		}
+		// four threads, one op each (every multiset of 4 from the 8-op alphabet), from the empty and the {A} state
+		for init := 0; init < 2; init++ {
+			for i := 0; i < len(regAlphabet); i++ {
+				for j := i; j < len(regAlphabet); j++ {
+					for k := j; k < len(regAlphabet); k++ {
+						for l := k; l < len(regAlphabet); l++ {
+							sc := registryScenario(init, [][]regOp{{regAlphabet[i]}, {regAlphabet[j]}, {regAlphabet[k]}, {regAlphabet[l]}})
+							sc.Name = "4x1 " + sc.Name
+							out = append(out, sc)
+						}
+					}
+				}
+			}
+		}
 	}
 	return out
 }
